@@ -200,7 +200,9 @@ class FullscreenWindow(BaseWindow, ContextManager["FullscreenWindow"]):
         current_lines_by_row: Dict[int, Optional[FmtStr]] = {}
 
         # rows which we have content for and don't require scrolling
-        for row, line in enumerate(array):
+        for row, line in enumerate(array[:height]):
+            if len(line) > width:
+                line = line[:width]
             current_lines_by_row[row] = line
             if line == self._last_lines_by_row.get(row, None):
                 continue
